@@ -470,6 +470,21 @@ pub fn c05(args: &Args, reg: &[TypeEntry], log: &mut Log) {
                         "result": format!("{r:?}"), "expected": expected, "got": got}));
                 }
             }
+            // "the union of the needed imports": nothing declared in the file is imported into it
+            if !reported {
+                if let Ok(m) = tsmodel::parse::parse_module(&std::fs::read_to_string(&target).unwrap_or_default()) {
+                    let declared: HashSet<String> = m.decls().map(|d| d.name.clone()).collect();
+                    let own: Vec<String> = m.imports().flat_map(|i| i.names.clone()).filter(|n| declared.contains(n)).collect();
+                    seq_evals += 1;
+                    if !own.is_empty() {
+                        reported = true;
+                        seq_fails += 1;
+                        log.emit(json!({"ev": "fail", "monitor": "C05", "part": "sequential", "kind": "imports-what-the-file-declares", "class": class,
+                            "origin": file, "order": perm.iter().map(|&j| reg[group[j]].id.clone()).collect::<Vec<_>>(),
+                            "what": format!("{own:?} imported although declared in the file"), "got": std::fs::read_to_string(&target).unwrap_or_default()}));
+                    }
+                }
+            }
             // exporting again changes nothing
             let before = snapshot(&root);
             for &j in perm {
